@@ -1025,11 +1025,14 @@ func newC09Anchors(c *kit.Ctx) *c09Anchors {
 			if !kit.CallIs(f.Info(), call, natsPkg+".(*Conn).Subscribe", natsPkg+".(*Conn).QueueSubscribe") || len(call.Args) < 2 {
 				continue
 			}
-			if kit.ObjOf(f.Info(), call.Args[len(call.Args)-1]) != types.Object(a.authHandler.Obj) {
-				continue
-			}
-			if s, ok := kit.ConstString(f.Info(), call.Args[0]); ok {
-				a.authSubject = s
+			for _, pr := range c09SubscriptionPairs(f, call.Args[0], call.Args[len(call.Args)-1]) {
+				if pr.handler != types.Object(a.authHandler.Obj) {
+					continue
+				}
+				if a.authSubject != "" && a.authSubject != pr.subject {
+					c.Fatalf("%s is subscribed on two subjects: %q and %q", a.authHandler.Name, a.authSubject, pr.subject)
+				}
+				a.authSubject = pr.subject
 			}
 		}
 	}
@@ -1117,6 +1120,68 @@ func newC09Anchors(c *kit.Ctx) *c09Anchors {
 	a.entries = c09HandlerEntries(c, a)
 	a.bus = c09Reach(c, "api", func(f *kit.Func, call *ast.CallExpr) bool { return a.directSink(f, call) != "" }, a)
 	return a
+}
+
+// c09SubPair is one (subject constant, handler function) pair of a subscription.
+type c09SubPair struct {
+	subject string
+	handler types.Object
+}
+
+// c09SubscriptionPairs resolves the subject and handler arguments of a
+// Subscribe call of f: either a constant and a function / method value, or —
+// table-driven subscriptions — two fields of the element of a loop over a
+// local slice literal of structs (one pair per element of the literal).
+func c09SubscriptionPairs(f *kit.Func, subj, handler ast.Expr) []c09SubPair {
+	info := f.Info()
+	if s, ok := kit.ConstString(info, subj); ok {
+		if fn, ok := kit.ObjOf(info, handler).(*types.Func); ok {
+			return []c09SubPair{{s, fn}}
+		}
+		return nil
+	}
+	ss, ok1 := ast.Unparen(subj).(*ast.SelectorExpr)
+	hs, ok2 := ast.Unparen(handler).(*ast.SelectorExpr)
+	if !ok1 || !ok2 {
+		return nil
+	}
+	sf, _ := kit.ObjOf(info, ss).(*types.Var)
+	hf, _ := kit.ObjOf(info, hs).(*types.Var)
+	if sf == nil || hf == nil || !sf.IsField() || !hf.IsField() {
+		return nil
+	}
+	loop := f.EnclosingLoop(subj)
+	if loop == nil || !kit.LoopElem(info, loop, ss.X) && !kit.ElemAliases(info, loop)[kit.ObjOf(info, ss.X)] {
+		return nil
+	}
+	if !kit.LoopElem(info, loop, hs.X) && !kit.ElemAliases(info, loop)[kit.ObjOf(info, hs.X)] {
+		return nil
+	}
+	table, _ := ast.Unparen(c09LocalDef(f, loop.X)).(*ast.CompositeLit)
+	if table == nil {
+		return nil
+	}
+	var out []c09SubPair
+	for _, el := range table.Elts {
+		if u, ok := ast.Unparen(el).(*ast.UnaryExpr); ok && u.Op == token.AND {
+			el = u.X
+		}
+		row, ok := ast.Unparen(el).(*ast.CompositeLit)
+		if !ok {
+			return nil
+		}
+		se, he := c09LitField(info, row, sf), c09LitField(info, row, hf)
+		if se == nil || he == nil {
+			return nil
+		}
+		s, ok := kit.ConstString(info, se)
+		fn, ok2 := kit.ObjOf(info, he).(*types.Func)
+		if !ok || !ok2 {
+			return nil
+		}
+		out = append(out, c09SubPair{s, fn})
+	}
+	return out
 }
 
 func appendFunc(fs []*kit.Func, f *kit.Func) []*kit.Func {
